@@ -330,6 +330,18 @@ func (m *Machine) callValue(s *State, f *Frame, x *ssa.Call, cc *ssa.CallCommon,
 			m.panicState(s, "nil func call", f, f.blk.Instrs[f.idx-1])
 			return nil
 		}
+		if len(fv.free) == 0 && fv.fn.Blocks != nil || len(fv.free) == 0 {
+			// a function value that denotes an intrinsic (e.g. timeFunc: time.Now)
+			dname := fv.fn.String()
+			if m.syncIntrinsic(s, f, dest, dname, args) {
+				return nil
+			}
+			if x != nil {
+				if r, handled := m.intrinsic(s, f, x, dname, fv.fn, args); handled {
+					return r
+				}
+			}
+		}
 		if x != nil && len(fv.free) == 0 && m.summarize[fv.fn.String()] {
 			return m.summarizedCall(s, f, x, fv.fn, args)
 		}
@@ -726,6 +738,47 @@ func (m *Machine) intrinsic(s *State, f *Frame, x *ssa.Call, name string, callee
 						res = p1.obj == p2.obj
 					}
 				}
+			}
+		}
+		f.env[x] = Sc{c.Bool(res)}
+		return nil, true
+	case name == "errors.As" || name == "github.com/pkg/errors.As":
+		cur, _ := args[0].(IfaceV)
+		tgt, _ := args[1].(IfaceV)
+		res := false
+		if pt, ok := tgt.typ.(*types.Pointer); ok {
+			want := pt.Elem()
+			for depth := 0; depth < 8 && cur.typ != nil; depth++ {
+				if _, isIface := want.Underlying().(*types.Interface); !isIface && types.Identical(cur.typ, want) {
+					s.store(tgt.v.(Ptr), cur.v)
+					res = true
+					break
+				}
+				// unwrap
+				next := IfaceV{}
+				switch v := cur.v.(type) {
+				case *ErrV:
+					if v.cause != nil {
+						next = IfaceV{typ: cur.typ, v: v.cause}
+					}
+				case Ptr:
+					if v.obj != 0 {
+						if st, ok := s.load(v).(StructV); ok {
+							if ptt, ok := cur.typ.(*types.Pointer); ok {
+								if stt, ok := ptt.Elem().Underlying().(*types.Struct); ok {
+									for i := 0; i < stt.NumFields(); i++ {
+										if stt.Field(i).Name() == "Err" {
+											if iv, ok := st.f[i].(IfaceV); ok {
+												next = iv
+											}
+										}
+									}
+								}
+							}
+						}
+					}
+				}
+				cur = next
 			}
 		}
 		f.env[x] = Sc{c.Bool(res)}
